@@ -451,6 +451,48 @@ func normJSON(v any) string {
 	return string(out)
 }
 
+// exactJSON is normJSON without pruning of zero numbers and false: a member
+// that is present with value 0 differs from an absent one (optional numbers
+// such as a cgroup rule's minor, a device node's uid).
+func exactJSON(v any) string {
+	b, err := json.Marshal(v)
+	must(err)
+	var t any
+	dec := json.NewDecoder(strings.NewReader(string(b)))
+	dec.UseNumber()
+	must(dec.Decode(&t))
+	t = pruneContainers(t)
+	out, _ := json.Marshal(t)
+	return string(out)
+}
+
+func pruneContainers(v any) any {
+	switch x := v.(type) {
+	case map[string]any:
+		for k, e := range x {
+			p := pruneContainers(e)
+			if p == nil {
+				delete(x, k)
+			} else {
+				x[k] = p
+			}
+		}
+		if len(x) == 0 {
+			return nil
+		}
+		return x
+	case []any:
+		if len(x) == 0 {
+			return nil
+		}
+		for i, e := range x {
+			x[i] = pruneContainers(e)
+		}
+		return x
+	}
+	return v
+}
+
 func prune(v any) any {
 	switch x := v.(type) {
 	case map[string]any:
